@@ -624,14 +624,18 @@ Definition st_multi_line_comment (s : sc) : res sc :=
   | x :: y :: _ =>
     if (ch c 35 && ch x 35 && ch y 35)%bool then
       do fs <- pop_rts (set_skip true s) ;
-      let '(f, s) := fs in ROk (set_step f s)
+      let '(f, s) := fs in
+      (* ninth-round fix: a block comment inside the rules of an inline annotation - the rules go on behind it *)
+      ROk (let s := set_step f s in
+           if existsb (fun p => ev_eqb (fst p) InlineAnnotationBegin) (s_stk s) then set_ann AInline s else s)
     else ROk s
   | _ => ROk s
   end.
 
 (* after reading `##` *)
+(* ninth-round fix: the third # belongs to the opener, it is not the first # of the end *)
 Definition st_multi_line_comment_start (s : sc) : res sc :=
-  if ch c 35 then st_multi_line_comment (set_step MultiLineComment s) else err_char.
+  if ch c 35 then ROk (set_step MultiLineComment s) else err_char.
 
 (* ---- scanner_annotations.go ---- *)
 Definition begin_inline_annotation (s : sc) : res sc :=
